@@ -242,6 +242,13 @@ def oracle_no_panic(line, impl, model_kv, impl_kv=None, model=None):
     if impl == "panic" or impl.startswith("crash"): return "the interpreter panicked / crashed on a program the verifier accepted"
     return None
 
+def oracle_c07(line, impl, mkv, ikv=None, model=None):
+    """interpreter cases: never panic; engine cases (call graphs compiled by the x86-64 JIT): the engine oracle"""
+    r = oracle_no_panic(line, impl, mkv, ikv, model)
+    if r is None and ikv and ikv.get("jit") is not None: r = _ENGINE_JIT(line, impl, mkv, ikv, model)
+    return r
+_ENGINE_JIT = engine_oracle(["jit"])
+
 PROPS = {
     "C01": dict(
         suites=["exec-matrix", "exec-memops", "exec-random", "exec-long", "exec-calls"], oracle=oracle_no_panic, level="proof", model_is_spec=True, case_suffix=" spec=isa",
@@ -352,9 +359,9 @@ PROPS = {
         trusted=EXEC_TRUST + ["C05_no_panic assumes HostOk (stack address in [2^20, 2^63), packet base + 2^32 < 2^64) and u16-valued stack-usage calculators"],
     ),
     "C07": dict(
-        suites=["exec-calls", "api"], oracle=oracle_no_panic, level="proof", model_is_spec=True,
+        suites=["exec-calls", "api", "exec-engines#calls"], oracle=oracle_c07, level="proof", model_is_spec=True,
         nontrivial=lambda line, impl: impl.split()[0] in ("ok", "err:oob", "err:call-depth"),
-        rule="suite api (the frame-size table is VM state: histories with set_stack_usage_calculator, failed and successful loads, then a program of nested local calls whose result is the frame size recorded for a function entry) + suite exec-calls: call chains of depth 0..9, functions placed after (forward displacement) or before (backward) the caller, every function clobbering r6..r9, passing arguments in r1..r5, "
+        rule="suite exec-engines#calls (the JIT clause: call graphs in which every function clobbers r6..r9 with distinct values and folds them, compiled by the x86-64 JIT and compared with the register-transfer model of its local calls; the frame separation it lacks is the known finding F16) + suite api (the frame-size table is VM state: histories with set_stack_usage_calculator, failed and successful loads, then a program of nested local calls whose result is the frame size recorded for a function entry) + suite exec-calls: call chains of depth 0..9, functions placed after (forward displacement) or before (backward) the caller, every function clobbering r6..r9, passing arguments in r1..r5, "
              "measuring r10 distance to the caller's frame, storing/reloading a marker in its own frame; bounded recursion to depth 0..9 through a backward self call; stack-usage calculators absent, "
              "constant, per-entry tables incl. values above 512 and not multiples of 8. Results (r0 folds r6..r9, r10 restoration, frame distances, markers) compared with the proved model. "
              "Non-trivial: distinct program that ran to a value or to the expected error.",
@@ -369,13 +376,13 @@ PROPS = {
         trusted=["IEEE-754: f64::sqrt is correctly rounded and `u64 as f64` rounds to nearest-even (written into Helpers.toF64 / sqrtTrunc in exact integer arithmetic)"],
     ),
     "C02": dict(
-        suites=["exec-memprobe", "exec-memops"], oracle=None, level="proof", model_is_spec=True,
+        suites=["exec-memprobe", "exec-memops", "api#kind=fixed"], oracle=None, level="proof", model_is_spec=True,
         nontrivial=lambda line, impl: impl.split()[0] in ("ok", "err:oob", "err:unaligned"),
         rule="suites exec-memprobe + exec-memops: for each of ldx/st/stx/xadd/ldabs/ldind x widths 1,2,4,8: every offset within 9 bytes of both ends of the packet, "
              "the metadata buffer, the 512-byte stack and a registered allowed range lying inside a larger canaried buffer, split between base register and 16-bit offset "
              "(0, -8, 32767, ...), null and wrap-around addresses, on layouts (packet,metadata) in {(64,0),(64,32),(0,32),(0,0),(8,0),(1,8)}; in-bounds matrix of all access "
              "instructions x registers. Outcome, returned value and digests of packet / metadata / allowed-memory bytes are compared with the proved model run on the same host "
-             "addresses; any difference is a violation (the model's verdict is OwnMemory by C02_checkMem_iff/C02_refused/C02_admitted). Non-trivial: distinct probe that reached the access.",
+             "addresses; any difference is a violation (the model's verdict is OwnMemory by C02_checkMem_iff/C02_refused/C02_admitted). Suite api on the fixed-metadata VM (which metadata buffer an access is confined to after a history of loads with other offsets: a pool program reads just past the buffer the offsets in force give). Non-trivial: distinct probe that reached the access.",
         trusted=EXEC_TRUST,
     ),
     "C13": dict(
@@ -568,7 +575,7 @@ def run_property(core, pid, tier, seed, replay):
             name, _, flt = s.partition("#")
             got = core.gen_cases(name, tier, seed, cfg.get("corpus", [pid]))
             if flt:
-                keep = tuple(" tag=%s " % t for t in flt.split(","))
+                keep = tuple((" %s " % t) if "=" in t else (" tag=%s " % t) for t in flt.split(","))
                 got = [l for l in got if any(k in l for k in keep)]
             lines += [l + cfg.get("case_suffix", "") for l in got]
     res = core.run_both(lines) if lines else {"impl": ("", "", 0), "model": ("", "", 0)}
